@@ -293,6 +293,28 @@ def check_case(case):
                                   f"is off by {e:.3g}", case, {"k": k})
                     break
     res.hits["alternating complex widths"] += 1
+    # assignment history on ONE object: use it, re-assign sample_rate, shift again == the same shift of a freshly built signal
+    for k in (1, 2.5):
+        obj = type(zg).like(zg)
+        q = (k * sr_in_unit / N) * unit
+        _ = (pb.freq_shift(obj, q), obj.dt, obj.time_length)
+        for factor in (2, 0.25):
+            obj.sample_rate = obj.sample_rate * factor
+            fresh = make_signal(N, dtype, ss, g, case["rate"])
+            fresh = type(fresh).like(fresh, sample_rate=obj.sample_rate)
+            try:
+                a, b_ = pb.freq_shift(obj, q), pb.freq_shift(fresh, q)
+            except Exception as e:
+                res.violation("freq_shift|assignment history raised", f"{type(e).__name__}: {e}", case, {"k": k})
+                break
+            res.transitions += 2
+            if not np.array_equal(np.asarray(a.data), np.asarray(b_.data)) or a.sample_rate != b_.sample_rate:
+                res.violation("freq_shift|assignment history|stale sample spacing", f"after use and 'z.sample_rate = ...' the shift by {q} "
+                              f"differs from the same shift of a freshly built signal with that rate (max diff "
+                              f"{float(np.max(np.abs(np.asarray(a.data) - np.asarray(b_.data)))):.3g})", case, {"k": k, "factor": factor})
+                break
+        else:
+            res.hits["sample_rate assigned between shifts"] += 1
     # error contract
     zi = factory.make("IntensitySignal", np.ones((4, 2)), rate_name="1Hz", chan_bw=1 * u.Hz)
     for bad, exc, what in ((lambda: pb.freq_shift(zi, 1 * u.Hz), TypeError, "non-baseband"),
@@ -316,7 +338,7 @@ def main(argv=None):
     return report.run_check(
         PID, gen_cases=gen_cases, check_case=check_case, describe=describe,
         required_hits=["wrapped bins checked", "|shift| >= bandwidth (all zero)",
-                       "scalar shift on multi-element sample shape", "shift broadcast across sample axes", "alternating complex widths", "long signal", "error contract"],
+                       "scalar shift on multi-element sample shape", "shift broadcast across sample axes", "alternating complex widths", "sample_rate assigned between shifts", "long signal", "error contract"],
         assumptions=["value budget 64*eps(dtype)*N*max|x|; the mixing phasor is computed in the signal's own precision",
                      "a shift within 1e-9 of a whole bin at a non-dyadic rate leaves the single boundary bin open"],
         argv=argv)
